@@ -120,7 +120,7 @@ def commentDef (i : In) : PR In :=
   match i with
   | 35 :: t =>
     let t := t.dropWhile (fun c => c == 32 || c == 9)
-    let c := t.takeWhile (· != 10)
+    let c := t.takeWhile (fun x => x != 10 && x != 13)
     .ok c (t.drop c.length)
   | _ => .err i
 
